@@ -240,6 +240,13 @@ def _gen_case(rng, tier):
     case['touch'] = t[:rng.choice([1, 1, 2, 3, 6])]
     if 'files' in case['touch'] and rng.random() < 0.25:
         case['touch'] = [('files_rr:%d' % rng.choice([1, 4, 16])) if x == 'files' else x for x in case['touch']]
+    if case['framing']['kind'] == 'cl' and rng.random() < 0.25:
+        # the client keeps the connection open after its complete message (a read beyond it would block for ever);
+        # a configured body limit below the body size and an application that touches the body again after the 413
+        case['keep_alive'] = True
+        if rng.random() < 0.6:
+            case['M'] = rng.choice([0, 1, max(1, len(body) // 2), max(1, len(body) - 1), len(body) // 2 + 1])
+            case['retry'] = rng.choice([1, 2, 3])
     r = rng.random()
     if r < 0.08:
         case['stages'] = {'after': [rng.choice(['forms_quiet', 'json', 'body'])]}      # e.g. an audit hook reading the body
@@ -341,7 +348,8 @@ def _run_case(case):
     elif fr['kind'] == 'cl_over':
         cl = len(body) + fr['extra']
     o = body_request(wire, case['sched'], B=case['B'], cl=cl, chunked=chunked, ctype=case['ctype'],
-                     tempmode='mem', touch=tuple(case['touch']), stages=case.get('stages'))
+                     tempmode='mem', touch=tuple(case['touch']), stages=case.get('stages'),
+                     M=case.get('M'), retry=case.get('retry', 0), keep_alive=bool(case.get('keep_alive')))
     code = o.resp.code
     log('status', o.resp.status, 'calls', o.stream.n_calls, 'seen', digest(o.seen))
     exc = o.handler_exc
